@@ -20,7 +20,7 @@ type vfC12Case struct {
 }
 
 func vfGenC12(t *rapid.T) vfC12Case {
-	o := vfRecGenOpt{bad: true, reset: true, test: true, maxEv: 200, cont: 1, variants: false}
+	o := vfRecGenOpt{bad: true, reset: true, test: true, maxEv: 200, cont: 1, variants: false, scale: true}
 	c := vfRecCase{Cfg: vfGenRecCfg(t, o)}
 	c.Cfg.Cont = rapid.Bool().Draw(t, "cont")
 	c.Ev = vfGenEvents(t, c.Cfg, o)
@@ -259,16 +259,24 @@ type vfC17Case struct {
 }
 
 func vfGenC17(t *rapid.T) vfC17Case {
-	o := vfRecGenOpt{reset: true, window: true, maxEv: 260, cont: 2, variants: false}
+	o := vfRecGenOpt{reset: true, window: true, maxEv: 260, cont: 2, variants: false, scale: true}
 	c := vfRecCase{Cfg: vfGenRecCfg(t, o)}
-	c.Cfg.FPS = rapid.IntRange(1, 4).Draw(t, "fps17")
-	if c.Cfg.Min > 3 {
-		c.Cfg.Min = 3
+	if c.Cfg.Max*c.Cfg.FPS <= 200 {
+		c.Cfg.FPS = rapid.IntRange(1, 4).Draw(t, "fps17")
+		if c.Cfg.Min > 3 {
+			c.Cfg.Min = 3
+		}
+		if c.Cfg.Preview > 3 {
+			c.Cfg.Preview = 3
+		}
+		c.Cfg.Max = rapid.IntRange(c.Cfg.Min, 5).Draw(t, "max17")
+	} else if c.Cfg.Max*c.Cfg.FPS > 600 {
+		// the shipped scale is kept, but continuous files of at most 601 frames keep the twins affordable
+		c.Cfg.Max = 600 / c.Cfg.FPS
+		if c.Cfg.Min > c.Cfg.Max {
+			c.Cfg.Min = c.Cfg.Max
+		}
 	}
-	if c.Cfg.Preview > 3 {
-		c.Cfg.Preview = 3
-	}
-	c.Cfg.Max = rapid.IntRange(c.Cfg.Min, 5).Draw(t, "max17")
 	c.Ev = vfGenEvents(t, c.Cfg, o)
 	// pad so that several continuous files fit
 	want := 2*(c.Cfg.Max*c.Cfg.FPS+1) + rapid.IntRange(0, 30).Draw(t, "pad")
@@ -455,7 +463,7 @@ func vfSinkString(tr *vfTrace, s byte) string {
 
 func TestVF_C17(t *testing.T) {
 	kit.Drive(t, "C17", "TestVF_C17",
-		"generated: streams of valid frames (fps 1-4, max-secs 0-5) with arbitrary motion, resets, window open/closed and up to 3 non-overlapping test-recording requests at arbitrary frames, continuous recorder on. Oracle: continuous files are back-to-back blocks of exactly max-secs*fps+1 frames covering every frame once in order (last may be open), identical to a motion-free/window-free twin; each request yields one test recording of exactly 21 consecutive frames starting with the next processed frame; motion-sink calls are identical to the request-free twin. Non-trivial: stream of at least 2 continuous files with a test request served inside a motion recording. Distinct by hash of the case.",
+		"generated: streams of valid frames (fps 1-4, max-secs 0-5; one case in 16 at the shipped scale, 9/30 fps and continuous files of 271-601 frames) with arbitrary motion, resets, window open/closed and up to 3 non-overlapping test-recording requests at arbitrary frames, continuous recorder on. Oracle: continuous files are back-to-back blocks of exactly max-secs*fps+1 frames covering every frame once in order (last may be open), identical to a motion-free/window-free twin; each request yields one test recording of exactly 21 consecutive frames starting with the next processed frame; motion-sink calls are identical to the request-free twin. Non-trivial: stream of at least 2 continuous files with a test request served inside a motion recording. Distinct by hash of the case.",
 		vfGenC17, vfRunC17)
 }
 
